@@ -2,6 +2,7 @@
 C14 — property theorems (statements only; helper lemmas live in `Proofs/C14*.lean`).
 -/
 import Mahotas.Proofs.C14
+import Mahotas.Proofs.C14Holes
 open Mahotas Mahotas.C14
 
 /-- **C14-T1 (local extrema).** For every image of every rank and shape, every pixel `p` inside it and
@@ -45,16 +46,29 @@ theorem C14_hitmiss_order_irrelevant (A : Img Int) (bshape : List Nat)
   unfold hitmissAt
   rw [hperm.all_eq]
 
-/-- **C14-T2/T3 (flood fill, the part proved): the flood never takes a pixel twice and never
-re-flags one** — the stack flood shared by `remove_fake_regmin_max` and `close_holes` only clears
-availability flags. Consequently `close_holes` never clears a foreground pixel:
-the result contains the input. What is *not* proved here (validated by the correspondence check on
-the exhaustive binary scope instead) is that the flood reaches *every* background pixel connected
-to the border, i.e. equality with the reachability specification `closeHolesSpec`/`regSpec`. -/
-theorem C14_flood_only_clears_partial (shape : List Nat) (nb : List (List Int)) (fuel : Nat)
-    (avail : Array Bool) (stack : List (List Int)) (i : Nat)
-    (h : (flood shape nb fuel avail stack).getD i false = true) : avail.getD i false = true :=
-  flood_sub shape nb fuel avail stack i h
+/-- **F14 (flood fill = reachability).** For every shape, neighbourhood, initial flag array and
+initial stack whose own flags are already cleared: with fuel at least `|stack| + #set flags` the
+stack flood shared by `remove_fake_regmin_max` and `close_holes` ends with exactly those flags
+cleared that belong to pixels reachable from the stack by steps `p ↦ p + k` through pixels inside
+the image whose flag was set — it takes every such pixel, takes nothing else, and the fuel is
+never exhausted (each pop is paid for by one stack entry or one set flag). -/
+theorem C14_flood_reachability (c : Ctx) (fuel : Nat) (hfuel : c.stack0.length + cnt c.avail0 ≤ fuel)
+    (h0 : ∀ p ∈ c.stack0, c.fl c.avail0 p = false) (q : List Int) (hq : inside c.shape q = true) :
+    c.fl (flood c.shape c.nb fuel c.avail0 c.stack0) q = true ↔
+      (c.fl c.avail0 q = true ∧ ¬ Reach c q) :=
+  flood_final c fuel hfuel h0 q hq
+
+/-- **C14-T3 (hole closing).** For every image (any rank the model is given, any shape, `data` of the
+size of the shape), every neighbourhood and every pixel `q` inside the image: the model of
+`close_holes` (seed the background pixels of the border, flood through background pixels, complement)
+is true at `q` exactly when `q` is **not** a background pixel connected to the image border
+(`BorderConn`: a background border pixel, or reached from one by neighbourhood steps through
+background pixels inside the image). In particular every foreground pixel stays set and exactly the
+enclosed background is filled. -/
+theorem C14_close_holes_eq_spec (ref : Img Int) (nb : List (List Int))
+    (hwf : ref.data.size = shapeSize ref.shape) (q : List Int) (hq : inside ref.shape q = true) :
+    (closeHoles ref nb).getD (ravelI ref.shape q) false = true ↔ ¬ BorderConn ref nb q :=
+  closeHoles_spec ref nb hwf q hq
 
 /-! non-vacuity: the 2-D cross (centre removed) is star-shaped, and a 2×3 image with a plateau
     touching the border and a tie between two plateaus meets every hypothesis of `C14_locmax_eq_spec`;
